@@ -142,7 +142,7 @@ def _inst(tier):
     out = []
     for k in SCEN:
         for s in SCEN[k]:
-            i = {"kind": k, "scen": s, "P": 1 if tier == "quick" or s != "foreign_dispose_running" else 2}
+            i = {"kind": k, "scen": s, "P": 1, "gran": "coarse" if tier == "quick" else "fine"}
             if s in ("loop_thread_dispose", "not_running_dispose", "stopped_then_dispose", "late_start_dispose_behind"):
                 i["P"] = 0  # one thread only: nothing to interleave
             if s == "foreign_dispose_running":
@@ -159,7 +159,7 @@ _BASE = {}
 @harness(instances=_inst, mode=I(0, 2), d0=I(0, 1), c=I(0, 3), p0=I(0, 100000), pos=I(0, 100000, n=lambda i: max(i["P"] - 1, 0)),
          tgt=I(0, 1, n=lambda i: i["P"]), timeout=(270, 1800), stock=False)
 def h_asyncio(a, inst):
-    gate.GRANULARITY = "coarse"
+    gate.GRANULARITY = inst.get("gran", "coarse")
     mode = inst["mode"] if "mode" in inst else gate.concrete(a.mode, 0, 2)
     d0 = gate.concrete(a.d0, 0, 1)
     c = inst["c"] if "c" in inst else gate.concrete(a.c, 0, 3)
@@ -168,7 +168,7 @@ def h_asyncio(a, inst):
     if inst["scen"] in ("stopped_then_dispose", "foreign_dispose_stopped") and (mode == 0 or c == 0 or c / 2 >= d0 + 1):
         return True  # the first run of the loop ends before the action is due
     vals = (mode, d0, c)
-    key = (inst["kind"], inst["scen"], inst.get("busy"), vals)
+    key = (inst["kind"], inst["scen"], inst.get("busy"), inst.get("gran"), vals)
     if key not in _BASE:
         with gate.untraced():
             _BASE[key] = run_once(inst, vals, [])
@@ -195,7 +195,7 @@ BOUNDS = {"quick": "AsyncIOThreadSafeScheduler: dispose from a foreign thread wh
                    "starts late, with the loop thread busy in a 2 s callback; AsyncIOScheduler: the same-thread cases; "
                    "schedule / schedule_relative / schedule_absolute with delay 1..2 s, dispose 0..3 s (0.5..1.5 s of loop run) later; "
                    "1 preemption at coarse yield points of the two scheduler modules and of the loop stub (between its cancelled-check "
-                   "and the callback), every lock / event operation", "thorough": "2 ordered preemptions for the foreign-thread case"}
+                   "and the callback), every lock / event operation", "thorough": "the same with instruction-level (fine) yield points"}
 ASSUMES = ["the event loop is a contract stub (engine/fakeloop.py: BaseEventLoop._run_once semantics, Handle.cancel() only sets a flag, "
            "call_soon_threadsafe wakes the loop, time() is the controlled clock); asyncio.get_running_loop and concurrent.futures."
            "Future are stubs on gate primitives", "a real asyncio loop (selector, C-accelerated handles) is not executed"]
@@ -204,5 +204,5 @@ MANIFEST = {
     "text": "Gate-serialised real threads run the real AsyncIOScheduler / AsyncIOThreadSafeScheduler code against an asyncio-loop "
             "contract stub on a controlled clock; schedule kind, delay, dispose time and the preemption schedule are solver variables: "
             "the action runs on the loop thread, never before its due time, and never starts once dispose() has returned.",
-    "note": "1 loop thread + 1 foreign thread; P<=1 (quick) / 2.",
+    "note": "1 loop thread + 1 foreign thread; P<=1; coarse (quick) / fine (thorough) yield points.",
 }
